@@ -22,6 +22,8 @@ pub enum Ty {
     Char,
     Str,
     DedupStr,
+    /// a u32 written as an unsigned varint (used by hand-written codecs, e.g. the Scala stack-trace element)
+    VarU32,
     Duration,
     Opt(Box<Ty>),
     /// Result<Ok, Err>
